@@ -839,9 +839,10 @@ def main():
             v = thunk()
             pieces[name] = v if not isinstance(v, list) else len(v)
             out.append("Definition %s : %s := %s." % (name, typ, emit(v)))
-        except Skip as e:
-            skipped[name] = str(e)
-            out.append("(* NOT TRANSLATED (%s): the model's own value stands in *)\nDefinition %s : %s := %s." % (str(e).replace("*)", "* )"), name, typ, fallback))
+        except Exception as e:          # Skip, or any error of the translator itself on a form it did not expect: not translated
+            skipped[name] = str(e) if isinstance(e, Skip) else "translator error %s: %s" % (type(e).__name__, e)
+            why = re.sub(r"[^A-Za-z0-9_ .,:;=<>!&|/+\-\[\]{}]", "?", str(e))       # no quotes, parentheses or stars inside a Coq comment
+            out.append("(* NOT TRANSLATED -- %s -- the model's own value stands in *)\nDefinition %s : %s := %s." % (why, name, typ, fallback))
 
     try:
         frame = strip_comments(read("src/frame/mod.rs"))
